@@ -221,6 +221,27 @@ func (ch c18) runCase(c *core.Ctx, env *hs.Env, L int, rng *core.Rng, idx int) {
 		return
 	}
 	cl.Wait()
+	// a neighbour: connects right after, retains what it is handed, stays open and silent while the
+	// connection under test receives its history; its retained data is compared again at the end
+	var nb *c18conn
+	var nbc *hs.Client
+	if rng.Intn(3) == 0 {
+		nb = &c18conn{sentQ: map[string]bool{"neighbour query": true}, binds: map[string][][]byte{}, pw: "neighbour-password"}
+		nbc = hs.NewClient(env.Dial(nb))
+		nbc.C.Send(pg.Startup([][2]string{{"user", "retention-user"}, {"database", "retention-db"}, {"application_name", "retention-app-name-xyz"}}))
+		nbc.C.Quiesce()
+		nbc.C.Send(pg.Password(nb.pw))
+		nbc.C.Quiesce()
+		nbc.Step(pg.Query("neighbour query"))
+		c.Count("neighbour_connections", 1)
+		defer func() {
+			nb.recheck("on a neighbour connection, after the connection under test received its history")
+			if nb.bad != "" {
+				c.Violate("overwritten", "retained data of a neighbour connection changed: "+trim(nb.bad, 40), nb.bad, cs)
+			}
+			nbc.Finish()
+		}()
+	}
 	sizeFor := func() int {
 		switch rng.Intn(8) {
 		case 0:
